@@ -51,11 +51,21 @@ func readObjectRules(c *core.Ctx, ro *core.Fn) {
 		c.Undecidedf("R2.grammar", "readObject/params", ro.Decl.Pos(), "expected readObject(key, typ, expiry)")
 		return
 	}
+	rr := newRoler(c, ro, outsideCup)
 	for v, want := range readRef {
 		spec := decodeSpec()
 		delete(spec.Prims, "(*"+cupName+".decode).readObject")
 		spec.StrictLits = true
 		spec.ImplicitDefault = true
+		spec.ResolveCallee = func(info *types.Info, call *ast.CallExpr, stack []*ast.CallExpr) *types.Func {
+			// a callback or reader held in a struct field / handed around: its single possible target
+			if s, found := rr.siteFor(call, stack); found {
+				if cands, ok := rr.funcCandsExpr(s, call.Fun); ok && len(cands) == 1 {
+					return cands[0].f
+				}
+			}
+			return nil
+		}
 		ex := grammar.New(c, spec)
 		ex.Assume(ps[1], v)
 		got := ex.FuncTerm(ro)
@@ -195,6 +205,17 @@ func wiringTerm(c *core.Ctx, ro *core.Fn, ps []types.Object, v int64) (string, [
 		delete(spec.Prims, "(*"+cupName+".decode).readObject")
 		spec.StrictLits = true
 		spec.ImplicitDefault = true
+		spec.ResolveCallee = func(info *types.Info, call *ast.CallExpr, stack []*ast.CallExpr) *types.Func {
+			// a callback held in a struct field / handed around: its single possible target
+			s, found := r.siteFor(call, stack)
+			if !found {
+				return nil
+			}
+			if cands, ok := r.funcCandsExpr(s, call.Fun); ok && len(cands) == 1 {
+				return cands[0].f
+			}
+			return nil
+		}
 		spec.ClassifyCtx = func(info *types.Info, call *ast.CallExpr, f *types.Func, stack []*ast.CallExpr) (string, bool) {
 			if tok, ok := isDecodeRead(f); ok {
 				s, found := r.siteFor(call, stack)
